@@ -88,6 +88,10 @@ func (o *orbitDB) Log(ctx context.Context, address string, options *CreateDBOpti
 		options = &CreateDBOptions{}
 	}
 
+	// (the caller's options are not written into: it may use them again)
+	optionsCopy := *options
+	options = &optionsCopy
+
 	options.Create = boolPtr(true)
 	options.StoreType = stringPtr("eventlog")
 	store, err := o.Open(ctx, address, options)
@@ -116,6 +120,10 @@ func (o *orbitDB) KeyValue(ctx context.Context, address string, options *CreateD
 		options = &CreateDBOptions{}
 	}
 
+	// (the caller's options are not written into: it may use them again)
+	optionsCopy := *options
+	options = &optionsCopy
+
 	options.Create = boolPtr(true)
 	options.StoreType = stringPtr("keyvalue")
 
@@ -136,6 +144,10 @@ func (o *orbitDB) Docs(ctx context.Context, address string, options *CreateDBOpt
 	if options == nil {
 		options = &CreateDBOptions{}
 	}
+
+	// (the caller's options are not written into: it may use them again)
+	optionsCopy := *options
+	options = &optionsCopy
 
 	options.Create = boolPtr(true)
 	options.StoreType = stringPtr("docstore")
